@@ -134,6 +134,13 @@ class MapFlavour:
             return ["red", K, v, str(rnd.choice([0, 0, 1, 2]))]
         return ["era", K]
 
+    def post_clear_op(self, rnd, k):
+        """operations issued right after clear() (no barrier in between)"""
+        v, a, K = qt(self.rand_val(rnd)), qt(self.rand_val(rnd)), qt(k)
+        if self.multi:
+            return rnd.choice([["insm", K, v], ["insm", K, v], ["vis", K, str(rnd.choice([0, 1])), a]])
+        return rnd.choice([["ins", K, v], ["iim", K, v], ["vis", K, str(rnd.choice([0, 1])), a], ["red", K, v, str(rnd.choice([0, 1, 2]))]])
+
     def heavy_ops(self, rnd, k, n):
         """n operations on k whose result does not depend on their order; returns (class, ops)"""
         K = qt(k)
@@ -202,7 +209,7 @@ class MapFlavour:
 
 # ---------------------------------------------------------------------------------------- scenario generation
 
-def gen_scenario(fl, rnd, ranks, nblocks, onerank, scale=1.0):
+def gen_scenario(fl, rnd, ranks, nblocks, onerank, scale=1.0, clearrace=False):
     """returns dict(lines=[...], blocks=[...]); a block = dict(ops=[(line, rank, c, op)], mut=…, obs=[(line, dir)], F={c: line})"""
     base = fl.base_keys(rnd)
     rnd.shuffle(base)
@@ -223,6 +230,28 @@ def gen_scenario(fl, rnd, ranks, nblocks, onerank, scale=1.0):
         kind = "ops"
         if b > 0 and rnd.random() < 0.22:
             kind = rnd.choice(fl.mut_kinds())
+        if clearrace and b > 0:
+            # clear() called collectively and followed IMMEDIATELY (no barrier) by new operations: a rank that leaves
+            # clear()'s barrier early issues them while a slower rank may still be inside that barrier
+            blk["mut"], blk["mut_first"] = ["clear", "0"], True
+            blk["mut_line"] = add("clear 0")
+            keys = list(base)
+            rnd.shuffle(keys)
+            pops = []
+            for k in keys[:rnd.randrange(3, len(keys) + 1)]:
+                for _ in range(rnd.randrange(1, 5)):
+                    pops.append((rnd.randrange(ranks), 0, fl.post_clear_op(rnd, k)))
+            rnd.shuffle(pops)
+            for (r, c, o) in pops:
+                blk["ops"].append((add(f"o {r} {c} " + " ".join(o)), r, c, o))
+            add("B")
+            blk["F"][0] = add("forall 0")
+            blk["F"][1] = add("forall 1")
+            for d in fl.gen_obs(rnd, base, uni, ranks)[:3]:
+                blk["obs"].append((add(" ".join(d)), d))
+            add("B")
+            blocks.append(blk)
+            continue
         ops = []
         if kind in ("ops", "swap") or (kind in fl.mut_with_ops()):
             keys = list(base)
@@ -360,13 +389,22 @@ class Analysis:
         self.lines, self.after = [], []
         self.fail_o, self.fail_c = [], []
         self.contended = 0
+        self.tag = ""               # prefix of the oracle signatures of the current block
 
     def ask(self, line, fn):
+        tag = self.tag
+
+        def tagged(o):
+            self.tag = tag
+            try:
+                fn(o)
+            finally:
+                self.tag = ""
         self.lines.append(line)
-        self.after.append(fn)
+        self.after.append(tagged)
 
     def oracle(self, what, sig, **kw):
-        self.fail_o.append({"what": what, "signature": f"{self.fl.what}-{sig}", "case": dict(self.case, **kw)})
+        self.fail_o.append({"what": what, "signature": f"{self.tag}{self.fl.what}-{sig}", "case": dict(self.case, **kw)})
 
     def corr(self, relation, what, **kw):
         self.fail_c.append({"relation": relation, "what": what, "case": dict(self.case, **kw)})
@@ -430,7 +468,8 @@ def analyse(fl, scn, sr, case, res, model_ok):
                     F[c][k] = F[c][k] + vs
         # ---- undo the mutation to obtain the contents right after the operations
         mut = blk["mut"]
-        res.count("block:" + ("+".join(mut[:1] + mut[2:3]) if mut else "ops") + ("" if blk["ops"] else "(no ops)"))
+        res.count("block:" + ("+".join(mut[:1] + mut[2:3]) if mut else "ops") + ("" if blk["ops"] else "(no ops)")
+                  + (" then ops without barrier" if blk.get("mut_first") else ""))
         for (_, d) in blk["obs"]:
             res.count("obs:" + d[0])
         Q = {0: F[0], 1: F[1]}
@@ -439,6 +478,10 @@ def analyse(fl, scn, sr, case, res, model_ok):
         if mut and mut[0] == "swap":
             Q = {0: F[1], 1: F[0]}
             dflt = {0: dflt[1], 1: dflt[0]}
+        elif mut and mut[0] == "clear" and blk.get("mut_first"):
+            # clear(), then (without a barrier) the operations of this block: they belong to the new contents
+            A.tag = ("map" if fl.mode == "map" else "set") + "-clear-race "
+            cont = {int(mut[1]): {}, 1 - int(mut[1]): cont[1 - int(mut[1])]}
         elif mut and mut[0] == "clear":
             c = int(mut[1])
             if F[c]:
@@ -587,6 +630,7 @@ def analyse(fl, scn, sr, case, res, model_ok):
         if post_expect is not None:
             post_expect()
         fl.check_obs(A, blk, bi, cont, segs, R)
+        A.tag = ""
     ok = A.finish(model_ok)
     return ok, A.contended
 
@@ -670,6 +714,23 @@ MapFlavour.is_consume_cb = lambda self, cb: False
 
 # ---------------------------------------------------------------------------------------- case lists
 
+RACE_LAYOUTS = [(1, 2), (1, 3), (2, 2), (1, 5), (2, 3), (1, 4), (1, 6), (3, 2)]
+
+
+def clear_race_cases(flavours, tier, seed):
+    """clear() followed immediately (no barrier) by new operations, 2..6 ranks, racer / late / burst, capacity 0 / default.
+    map_impl::clear() / set_impl::clear() are `barrier(); local clear;`: a rank still inside that barrier executes the
+    early operations of a faster rank and then wipes them (known finding; OFF unless C1x_POST_CLEAR_NOBARRIER=1)."""
+    rnd = random.Random(seed * 104729 + 5)
+    cases = []
+    for i in range((40 if tier == "quick" else 300) * len(flavours)):
+        nodes, ppn = RACE_LAYOUTS[i % len(RACE_LAYOUTS)]
+        cases.append({"fl": flavours[i % len(flavours)], "nodes": nodes, "ppn": ppn, "routing": ROUTINGS[i % 3], "buffer": [0, None][(i // 3) % 2],
+                      "policy": ["racer", "late", "burst"][(i // 2) % 3], "sim_seed": rnd.randrange(1, 1 << 30),
+                      "gen_seed": rnd.randrange(1 << 30), "blocks": 4, "eager": rnd.choice([0, 50, 100]), "clearrace": True})
+    return cases
+
+
 def make_cases(flavours, tier, seed):
     rnd = random.Random(seed * 7919 + 11)
     cases = []
@@ -709,7 +770,7 @@ def do_case(binary, case, model_ok, res_factory=C.Result):
     fl = case["fl"]
     R = case["nodes"] * case["ppn"]
     rnd = random.Random(case["gen_seed"])
-    scn = gen_scenario(fl, rnd, R, case["blocks"], R == 1, scale=case.get("scale", 1.0))
+    scn = gen_scenario(fl, rnd, R, case["blocks"], R == 1, scale=case.get("scale", 1.0), clearrace=case.get("clearrace", False))
     sr = run_case(binary, fl, case, scn["lines"])
     if sr.verdict == "wall-timeout" and _RETRIES[0] < 8:   # a loaded machine is not a violation: once more with a generous limit
         _RETRIES[0] += 1                                  # (bounded: a tree that really hangs must not stall the check)
@@ -730,7 +791,7 @@ def do_case(binary, case, model_ok, res_factory=C.Result):
     return case, frag, info
 
 
-def run_flavours(flavours, tier, seed, model_ok, rule, assumptions):
+def run_flavours(flavours, tier, seed, model_ok, rule, assumptions, race_env=None):
     res = C.Result()
     res.rule = rule
     res.assumptions = assumptions
@@ -741,6 +802,12 @@ def run_flavours(flavours, tier, seed, model_ok, rule, assumptions):
     if not model_ok:
         res.corr_failures.append({"relation": "model driver available", "what": "Lean library does not build", "case": None})
     cases = make_cases(flavours, tier, seed)
+    if race_env and os.environ.get(race_env) == "1":
+        cases += clear_race_cases(flavours, tier, seed)
+        res.notes.append(f"{race_env}=1: clear() followed by operations without a barrier is included")
+    elif race_env:
+        res.notes.append(f"scenario 'clear() followed immediately by new operations, no barrier' is OFF (known finding *-clear-race); "
+                         f"enable with {race_env}=1")
     out = C.pmap(lambda c: do_case(binary, c, model_ok), cases)
     for case, frag, info in out:
         fl = case["fl"]
@@ -756,6 +823,8 @@ def run_flavours(flavours, tier, seed, model_ok, rule, assumptions):
         res.count("buffer=" + str(case["buffer"]))
         res.count("policy=" + case["policy"])
         res.count("operations", info["nops"])
+        if case.get("clearrace"):
+            res.count("cases: clear() then operations without barrier")
         if info["skipped"]:
             res.count("skipped: messaging-layer abort (C03)")
             res.notes.append(f"skipped {case_public(case)}: {info['why']}")
@@ -777,7 +846,7 @@ ASSUME = ["every operation is executed exactly once, atomically, on owner(key) b
 
 
 def run(tier, seed, model_ok=True):
-    return run_flavours(FLAVOURS, tier, seed, model_ok, RULE, ASSUME)
+    return run_flavours(FLAVOURS, tier, seed, model_ok, RULE, ASSUME, race_env="C11_POST_CLEAR_NOBARRIER")
 
 
 def replay_with(flavour_of, data):
